@@ -1,0 +1,23 @@
+//go:build verif
+
+package replica
+
+import "github.com/lindb/lindb/models"
+
+// VerifReplicaStep runs one replication step(partition.replica) for the replicator of the node,
+// instead of the free-running replica loop.
+func VerifReplicaStep(p Partition, node models.NodeID) {
+	pp := p.(*partition)
+	pp.replica(node, pp.replicators[node])
+}
+
+// VerifHandshake runs the ready check and connect of the node's replicator without consuming a message.
+func VerifHandshake(p Partition, node models.NodeID) bool {
+	r := p.(*partition).replicators[node]
+	return r.IsReady() && r.Connect()
+}
+
+// VerifReplicatorReady returns if the node's replicator is in ready state.
+func VerifReplicatorReady(p Partition, node models.NodeID) bool {
+	return p.(*partition).replicators[node].State().state == models.ReplicatorReadyState
+}
